@@ -1170,7 +1170,7 @@ impl<'a> ToTokens for JoinOutput<'a> {
                     let value_name = construct_internal_value_name();
 
                     quote! {
-                        fn #inspect_fn_name<I>(#handler_name: impl ::std::ops::Fn(&I) -> (), #value_name: I) -> I {
+                        fn #inspect_fn_name<I>(#handler_name: impl ::std::ops::FnOnce(&I) -> (), #value_name: I) -> I {
                             #handler_name(&#value_name);
                             #value_name
                         }
